@@ -25,6 +25,7 @@ P = {
  'C13': ('grammar-based program generation (proptest) + independent reference expander (translation validation), respelling metamorphic relation, must-reject mutants, exhaustive row x character x position table sweep', '5/C13', 'Every generated program is converted by the real loader and compared with a reference expansion written from the README and the property text with its own tables.'),
  'C14': ('proptest JSON trees over a vocabulary, structure-aware mutants of valid layouts, byte damage; libFuzzer target in the thorough tier; oracle: no panic in load / install / drive', '5/C14', 'Every input goes through load_layout_from_file; accepted layouts are installed in the mapper and driven with a generated history under catch_unwind.'),
  'C15': ('round-trip property (proptest) + exhaustive sweep over all key codes; oracle: saved-then-loaded layout equals the original mapping list', '5/C15', 'Save path (serde) and load path (shorthand parser + converter) are connected exactly as the systemd service connects them.'),
+ 'C16': ('proptest device-list texts from archetypes with dropped fields (context-independence metamorphic relation, two-extractor differential, ground truth by construction) + end-to-end runs of the real listing/filter code and the real binary on a fabricated /proc,/sys,/dev in a private mount namespace; reference glob matcher', '5/C16', 'Both extractors, the virtual-device filter, the exclude filter and both device-selection routes are exercised on generated device lists; a sample of cases goes through the unmodified binary.'),
  'C17': ('exhaustive enumeration of all single scalar values and all pairs/triples over the syntax alphabet + proptest strings and lists; oracle: independent decoder of systemd ExecStart= rules', '5/C17', 'The unit text produced by the real code is decoded by an independent implementation of systemd\'s documented rules and compared byte for byte.'),
  'C18': ('exhaustive enumeration over key codes + proptest batches and foreign-record streams; oracle: libc::input_event layout, kernel header key codes, writer->reader round trip over a pipe', '5/C18', 'The writer runs on a memfd, the reader on a non-blocking pipe; no uinput/evdev device is needed.'),
  'C19': ('proptest histories + BFS state sweep; oracle: press only when up / release only when down over the concatenated output stream', '5/C19', 'Same generators as C01; the fold runs over every step and every release_all batch.'),
